@@ -12,6 +12,8 @@ import PRV.Driver.C17
 import PRV.Driver.C18
 import PRV.Driver.Sess
 import PRV.Driver.SessMon
+import PRV.Driver.Life
+import PRV.Driver.LifeMon
 
 open PRV.Driver
 
@@ -37,6 +39,9 @@ def main (args : List String) : IO UInt32 := do
   | ["monitor", "c12"] => runMonitor C12.monitor; return 0
   | ["model", "c17"] => run C17.machine; return 0
   | ["model", "c18"] => run C18.machine; return 0
+  | ["monitor", "life"] => runMonitor LifeMon.monitor; return 0
+  | ["model", "life"] => run Life.machine; return 0
+  | ["spec", "life"] => run Life.machine; return 0
   | ["model", "sess"] => run Sess.machine; return 0
   | ["monitor", "sess"] => runMonitor SessMon.monitor; return 0
   | _ => IO.eprintln "usage: prvdrv (model|spec) <property>"; return 2
